@@ -624,10 +624,8 @@ func Rand(fn parser.Function, args []value.Primary, _ *option.Flags) (value.Prim
 		return nil, NewFunctionArgumentLengthError(fn, fn.Name, []int{0, 2})
 	}
 
-	r := option.GetRand()
-
 	if len(args) == 0 {
-		return value.NewFloat(r.Float64()), nil
+		return value.NewFloat(option.RandFloat64()), nil
 	}
 
 	p1 := value.ToInteger(args[0])
@@ -651,7 +649,7 @@ func Rand(fn parser.Function, args []value.Primary, _ *option.Flags) (value.Prim
 	if delta <= 0 {
 		return nil, NewFunctionInvalidArgumentError(fn, fn.Name, "the range between the arguments is too large")
 	}
-	return value.NewInteger(r.Int63n(delta) + low), nil
+	return value.NewInteger(option.RandInt63n(delta) + low), nil
 }
 
 func execStrings1Arg(fn parser.Function, args []value.Primary, stringsf func(string) string) (value.Primary, error) {
